@@ -386,6 +386,41 @@ func pickEngine(c *Ctx) {
 			}
 		}
 	}
+	// … a unix socket or a symlink cycle at the ware's own address; an address longer than any name can be
+	for k, mk := range []func(dir string) string{
+		func(dir string) string {
+			p := filepath.Join(dir, pickHash[0:3], pickHash[3:6])
+			os.MkdirAll(p, 0755)
+			if l, e := net.Listen("unix", filepath.Join(p, "s")); e == nil { // (the full hash is too long for a socket path: bind a short name, rename)
+				l.(*net.UnixListener).SetUnlinkOnClose(false)
+				l.Close()
+				os.Rename(filepath.Join(p, "s"), filepath.Join(p, pickHash))
+			}
+			return pickHash
+		},
+		func(dir string) string {
+			p := filepath.Join(dir, pickHash[0:3], pickHash[3:6])
+			os.MkdirAll(p, 0755)
+			os.Symlink(pickHash, filepath.Join(p, pickHash))
+			return pickHash
+		},
+		func(dir string) string {
+			long := strings.Repeat("a", 300)
+			os.MkdirAll(filepath.Join(dir, "aaa", "aaa"), 0755)
+			return long
+		},
+	} {
+		dir := filepath.Join(env.root, fmt.Sprintf("odd%d", k))
+		os.MkdirAll(dir, 0755)
+		h := mk(dir)
+		op := fmt.Sprintf("pick-odd-object %d", k)
+		r := pickDirect(api.WareID{Type: "tar", Hash: h}, []api.WarehouseLocation{api.WarehouseLocation("ca+file://" + dir)})
+		c.EmitR(op, "skip", "skip")
+		c.H("odd-object:" + r)
+		if r != "err rio-ware-not-found" {
+			c.PropFail("pick-wrong-error", fmt.Sprintf("a reachable ca+file warehouse that lacks the ware (%s at its address) answers %s instead of ware-not-found", []string{"a unix socket", "a symlink cycle", "a name longer than NAME_MAX"}[k], r), op)
+		}
+	}
 	// a content-addressed warehouse that answers and lacks the ware in another way than ENOENT: a regular file sits where a
 	// chunk directory would be
 	for k, mk := range []func(dir string){
